@@ -204,6 +204,25 @@ def run(ctx):
     for r_ in sorted(rets, key=lambda n: n.lineno):
         ok, why = _domain_is_target_ancestor(fd, r_, tparam)
         c.ob("R7", ok, fd, f"domain-return:{norm(r_.value)[:40]}", why, r_)
+    # the domain is the *nearest* such ancestor: the machine root only stands in for a missing parent, the LCCA is the deepest common ancestor
+    for r_ in [x for x in own_nodes(fd.node) if isinstance(x, ast.Return) and (x.value is None or (isinstance(x.value, ast.Constant) and x.value.value is None))]:
+        c.ob("R7", False, fd, "root-domain-returned", "'return None' makes the whole machine the transition domain: every active state is exited (sibling regions "
+             "included) and only the target's path is entered again", r_)
+    for r_ in rets:
+        exprs = [r_.value]
+        if isinstance(r_.value, ast.Name):
+            exprs = [a.value for a in assignments_to(fd, r_.value.id) if getattr(a, "value", None) is not None] or exprs
+        for e in exprs:
+            if "self.machine" in norm(e):
+                ok = isinstance(e, ast.BoolOp) and isinstance(e.op, ast.Or) and len(e.values) == 2 and norm(e.values[0]).endswith(".parent") and norm(e.values[1]) == "self.machine"
+                c.ob("R7", ok, fd, f"root-only-as-fallback:{norm(e)[:40]}", "the machine root is used only when the state has no parent" if ok else
+                     f"'{norm(e)}' yields the machine root although the state has a parent: the domain becomes the whole machine, every active state (sibling "
+                     f"regions included) is exited and only the target's path is entered again", r_)
+            if isinstance(e, ast.Call) and isinstance(e.func, ast.Name) and e.func.id in ("max", "min") and "common" in norm(e):
+                key = next((k.value for k in e.keywords if k.arg == "key"), None)
+                ok = e.func.id == "max" and key is not None and "depth" in norm(key) and "-" not in norm(key)
+                c.ob("R7", ok, fd, "lcca-is-deepest", "the least common ancestor is the deepest common one" if ok else
+                     f"'{norm(e)}' does not select the deepest common ancestor: a shallower domain exits (and kills) states outside the transition's subtree", r_)
     # ---- R10 the entry path is outermost-first (entry actions of a state run after those of its ancestors) ----
     from sa.util import canon_atom, loop_exit_atoms
     gp = p.method("BaseInterpreter", "_get_path_to_state")
